@@ -409,6 +409,30 @@ def case_numbering(kind):
         cp -= dx
         err = max(maxabs(cp[k].values - old[k]) for k in range(len(old)))
         run.compare(mon, "api=container-= clause=layout", err, 1e-14, "field -= dx misplaces increments", unit="container-=")
+        # multiplicative updates and container-with-container updates use the same global index
+        fac = rng.uniform(0.5, 2, M.n)
+        for opname, op, ref_op in (("*", lambda a, b: a * b, lambda v, d: v * d), ("/", lambda a, b: a / b, lambda v, d: v / d)):
+            new = op(field, fac)
+            err = max(maxabs(new[k].values.ravel() - ref_op(old[k].ravel(), fac[M.off[k]: M.off[k] + M.sizes[k]])) for k in range(len(old)))
+            run.compare(mon, "api=container%s clause=layout" % opname, err, 1e-14, "field %s x does not act on unknown g with x[g]" % opname,
+                        unit="container" + opname, config=(kind, opname))
+        cp2 = field.copy()
+        cp2 *= fac
+        err = max(maxabs(cp2[k].values.ravel() - old[k].ravel() * fac[M.off[k]: M.off[k] + M.sizes[k]]) for k in range(len(old)))
+        run.compare(mon, "api=container*= clause=layout", err, 1e-14, "field *= x misplaces factors", unit="container*=")
+        cp2 /= fac
+        err = max(maxabs(cp2[k].values - old[k]) for k in range(len(old)))
+        run.compare(mon, "api=container/= clause=layout", err, 1e-13, "field /= x misplaces factors", unit="container/=")
+        other = field.copy()
+        for f in other.fields:
+            f.values[:] = rng.standard_normal(f.values.shape)
+        try:
+            both = field + other
+        except Exception as exc:
+            run.skip(mon, "container + container not supported: " + type(exc).__name__)
+        else:
+            err = max(maxabs(both[k].values - (old[k] + other[k].values)) for k in range(len(old)))
+            run.compare(mon, "api=container+container clause=layout", err, 1e-15, "field + other_field does not add field by field", unit="container+container")
         # list-of-arrays form (one array per field)
         parts = [dx[M.off[k]: M.off[k] + M.sizes[k]] for k in range(len(old))]
         if len(parts) != M.n:  # ambiguous when #fields == #unknowns (never here)
